@@ -73,19 +73,26 @@ Proof.
   - rewrite <- app_assoc. erewrite bind_ok; [|apply Hstep]. cbn iota. now apply IH.
 Qed.
 
-Lemma send_incr_ok s ts : c_canfur s = true ->
+Lemma send_incr_ok s ts : c_canfur s = true -> c_reqrs s = false ->
   send_incr s ts = Ok tt (add_out s (let '(x, y, w, h) := c_upd s in fur_bytes 1 x y w h)) ts.
 Proof.
+  intros H H2. unfold send_incr, bind, get_st. destruct (c_upd s) as [[[x y] w] h].
+  unfold send_fur, bind, get_st. rewrite H, H2. reflexivity.
+Qed.
+
+(* while a SetDesktopSize is pending the request is withheld *)
+Lemma send_incr_pending s ts : c_reqrs s = true -> send_incr s ts = Ok tt s ts.
+Proof.
   intros H. unfold send_incr, bind, get_st. destruct (c_upd s) as [[[x y] w] h].
-  unfold send_fur, bind, get_st. rewrite H. reflexivity.
+  unfold send_fur, bind, get_st. rewrite H. destruct (c_canfur s); reflexivity.
 Qed.
 
 Theorem fbu_run s rs s' ts :
-  rects_run s rs s' -> zlen rs < 65535 -> c_canfur s' = true ->
+  rects_run s rs s' -> zlen rs < 65535 -> c_canfur s' = true -> c_reqrs s' = false ->
   handle_msg s (toks (fbu_header (zlen rs)) ++ concat rs ++ ts)
   = Ok tt (add_ev (add_out s' (let '(x, y, w, h) := c_upd s' in fur_bytes 1 x y w h)) EvFinished) ts.
 Proof.
-  intros Hrun Hn Hfur. unfold handle_msg, fbu_header. cbn [app toks map].
+  intros Hrun Hn Hfur Hrq. unfold handle_msg, fbu_header. cbn [app toks map].
   erewrite bind_ok; [|apply rd_u8_app; unfold byte_ok, cM_FramebufferUpdate; lia].
   change (cM_FramebufferUpdate =? cM_SetColourMapEntries) with false. rewrite Z.eqb_refl. cbn iota.
   pose proof (zlen_nonneg rs).
@@ -96,7 +103,7 @@ Proof.
       constructor; [unfold byte_ok; lia|exact Hb16]. }
   cbn [skipn]. rewrite Hv. unfold zlen at 1. rewrite Nat2Z.id.
   erewrite bind_ok; [|apply rect_loop_run; exact Hrun].
-  erewrite bind_ok; [|apply send_incr_ok; exact Hfur]. reflexivity.
+  erewrite bind_ok; [|apply send_incr_ok; [exact Hfur|exact Hrq]]. reflexivity.
 Qed.
 
 (* a Raw rectangle is such a step *)
